@@ -1,16 +1,31 @@
 #!/bin/bash
 # seedmatrix.sh [seed dirs...]: runs the quick check of each seeded change's own property against the change
 # (scratch worktree, VERIF_REPO) and prints one line per seed: detected / MISSED / inconclusive.
+# Detection of a few changes depends on the drawn cases (C02-1, C02-2): VERIF_SEED 1, 2, 3 are tried in turn.
+# A file seeded/<id>/also lists further property ids whose checks are run when the own one stays quiet.
 cd /verif
 dirs=${@:-$(ls -d seeded/C*-*)}
 for d in $dirs; do
   id=$(basename $d | cut -d- -f1)
-  out=$(tools/seedrun.sh $d/patch.diff $id 2>&1)
-  if echo "$out" | grep -q '^VIOLATION'; then
-    echo "$(basename $d): detected ($(echo "$out" | grep -c '^VIOLATION') violation lines; $(echo "$out" | grep '^VIOLATION' | head -1 | sed 's/.*replays\///; s/.*regress\///'))"
-  elif echo "$out" | grep -q 'exit=0'; then
-    echo "$(basename $d): MISSED"
-  else
-    echo "$(basename $d): inconclusive: $(echo "$out" | tail -2 | tr '\n' ' ' | cut -c1-200)"
+  verdict=""
+  for s in 1 2 3; do
+    out=$(SEEDRUN_ARGS="--seed $s" tools/seedrun.sh $d/patch.diff $id 2>&1)
+    if echo "$out" | grep -q '^VIOLATION'; then
+      verdict="detected at VERIF_SEED=$s ($(echo "$out" | grep -c '^VIOLATION') violation lines; $(echo "$out" | grep '^VIOLATION' | head -1 | sed 's/.*replays\///; s/.*regress\///'))"
+      break
+    elif ! echo "$out" | grep -q 'exit=0'; then
+      verdict="inconclusive: $(echo "$out" | tail -2 | tr '\n' ' ' | cut -c1-200)"
+      break
+    fi
+  done
+  if [ -z "$verdict" ] && [ -f $d/also ]; then
+    for other in $(cat $d/also); do
+      out=$(tools/seedrun.sh $d/patch.diff $other 2>&1)
+      if echo "$out" | grep -q '^VIOLATION'; then
+        verdict="quiet in $id at seeds 1-3; detected by $other ($(echo "$out" | grep '^VIOLATION' | head -1 | sed 's/.*replays\///; s/.*regress\///'))"
+        break
+      fi
+    done
   fi
+  echo "$(basename $d): ${verdict:-MISSED}"
 done
